@@ -23,8 +23,18 @@ import molast
 import tokast
 
 
+_erase_cache = {}
+
+
 def erase_ext(s):
-    return re.sub(r"\|[^|]*\|", "", s)
+    """the erasure of every |...| segment, evaluated with the EXTRACTED Coq function erase_ext (Model/Render.v); the Python regex is
+    only a cross-check of the glue"""
+    if s not in _erase_cache:
+        out = fw.unhx(fw.run_driver(["erase\t" + fw.hx(s)])[0])
+        if s.count("|") % 2 == 0 and out != re.sub(r"\|[^|]*\|", "", s):
+            raise RuntimeError("erase_ext glue mismatch on " + repr(s))
+        _erase_cache[s] = out
+    return _erase_cache[s]
 
 
 def dump_descr(b):
@@ -113,7 +123,7 @@ def roundtrip(rep, ctor, dump, text, ident, single_molecule, seed):
         rep.fail("oracle", f"extension-free form {ne!r} is not the canonical string {s1!r} with every |...| erased", {**ident, "canonical": s1}, expected=erase_ext(s1), observed=ne)
     if "|" in ne:
         rep.fail("oracle", f"extension-free form {ne!r} contains '|'", {**ident, "canonical": s1}, expected="no '|'", observed=ne)
-    if single_molecule:
+    if single_molecule and getattr(o, "mixture", None) is None:
         try:
             with fw.time_limit(20):
                 o2 = ctor(ne)
